@@ -1,0 +1,46 @@
+//go:build verif
+
+// Contracts for the verifier in /verif (govc). Comment-only: no declarations.
+
+package server
+
+// Ghost tokens: "this code runs on a loop that accepts peers / streams".  Code that waits for a peer must
+// not run while such a token is held (C15, C02).  `go` starts a function without any token.
+//@ ghost G_holds_accept_loop() bool
+//@ ghost G_holds_session_accept_loop() bool
+//@ ghost G_dead(x interface{}) bool
+
+// ---- C15: one stalled peer cannot block other peers
+//@ func AcceptConnection
+//@   property C15
+//@   requires !G_holds_accept_loop()                        :not_on_accept_loop
+
+//@ func (st *SocketServer) acceptConnection
+//@   property C15
+//@   loop 1 holds accept_loop
+//@ func (st *SocketServer) acceptConnection$1
+//@   property C15
+//@   requires !G_holds_accept_loop()
+
+//@ func (st *PacketServer) acceptConnection
+//@   property C15
+//@   loop 1 holds accept_loop
+//@ func (st *PacketServer) acceptConnection$1
+//@   property C15
+//@   requires !G_holds_accept_loop()
+
+// ---- C02 / C14: the per-session stream accept loop
+//@ func (ch *ConnectionHandler) acceptStream
+//@   property C02, C14
+//@   requires ch.session != nil && !G_dead(ch.session)
+//@   loop 1 holds session_accept_loop
+//@   loop 1 invariant ch.session != nil && !G_dead(ch.session)
+//@ func (ch *ConnectionHandler) acceptStream$1
+//@   property C02
+//@   requires !G_holds_session_accept_loop()
+//@   modifies stream.*
+//@   trusted "goroutine serving one logical connection: runs concurrently with the accept loop and never touches the session's accept state; its call of multiplexToUpstream trivially meets the token precondition it requires itself"
+
+//@ func (ch *ConnectionHandler) multiplexToUpstream
+//@   property C02
+//@   requires !G_holds_session_accept_loop()                 :not_on_session_accept_loop
